@@ -20,7 +20,14 @@ var (
 	tByte    = types.Typ[types.Uint8]
 )
 
-func (env *Env) sortOf(t types.Type) string { return env.c.e.types.sortOf(env.subst(t)) }
+func (env *Env) sortOf(t types.Type) string {
+	t = env.subst(t)
+	if env.c != nil && env.c.bv && t != nil && isInteger(t) {
+		// bit-vector mode: scalar integers have exact machine semantics
+		return fmt.Sprintf("(_ BitVec %d)", intBits(t))
+	}
+	return env.c.e.types.sortOf(t)
+}
 
 func (env *Env) subst(t types.Type) types.Type {
 	if t == nil {
@@ -1029,6 +1036,21 @@ func (env *Env) selectField(v Val, name string, st *State, pos token.Pos) Val {
 	vt := env.subst(v.Ty)
 	_, sty, isPtr := structOf(vt)
 	if sty == nil {
+		// ghost field of an interface-typed value (e.g. the byte stream behind an io.Writer)
+		if is := env.sortOf(vt); strings.HasPrefix(is, "If_") {
+			if ts := c.e.typeSpecForSort(is); ts != nil {
+				if texpr, ok := ts.GhostFields[name]; ok {
+					gt := env.ghostTypeOf(ts, name, texpr)
+					if gt != nil {
+						key := is + ".$" + name
+						h := env.heapTermK(st, key, is, env.sortOf(gt))
+						r := Val{T: app("select", h, v.T), Ty: gt}
+						env.rangeAssume(st, r)
+						return r
+					}
+				}
+			}
+		}
 		c.unsupported("%s: field %s of non-struct %v", c.e.pos(pos), name, vt)
 		return Val{T: c.fresh("unk", "Int"), Ty: tInt}
 	}
@@ -1095,11 +1117,18 @@ func (env *Env) structSortOf(t types.Type) string {
 }
 
 func (env *Env) heapTerm(st *State, key, sort string) string {
+	return env.heapTermK(st, key, "Int", sort)
+}
+
+// heapTermK: heap map with an arbitrary key sort (Int for references, an interface sort for
+// ghost fields of interface values).
+func (env *Env) heapTermK(st *State, key, ksort, sort string) string {
 	if h, ok := st.heap[key]; ok {
 		return h
 	}
 	name := "|H:" + key + "|"
-	env.c.decls.declConst(name, fmt.Sprintf("(Array Int %s)", sort))
+	env.c.decls.declConst(name, fmt.Sprintf("(Array %s %s)", ksort, sort))
+	env.c.heapKeySorts[key] = ksort
 	env.c.heapSorts[key] = sort
 	st.heap[key] = name
 	// the entry heap does not point to objects allocated by this function
@@ -1593,6 +1622,11 @@ func (env *Env) ghostFieldType(t types.Type, name string) types.Type {
 	if !ok {
 		return nil
 	}
+	return env.ghostTypeOf(ts, name, texpr)
+}
+
+func (env *Env) ghostTypeOf(ts *TypeSpec, name, texpr string) types.Type {
+	c := env.c
 	key := ts.Key + "." + name
 	if gt, ok := c.e.ghostTypes[key]; ok {
 		return gt
